@@ -4,7 +4,7 @@
     The theorems cover four cores — lexer cursors, lexer termination, filter arithmetic and index
     arithmetic, transcribed parser loops / recursion depth.  Grammars, translators, binder, planner
     and execution are searched by the check, not proved. *)
-From GV Require Export Lex.Cursor Lex.Check Lex.Lexers Lex.Arith Lex.Progress.
+From GV Require Export Lex.Cursor Lex.Check Lex.Lexers Lex.Values Lex.Arith Lex.Progress.
 From GV Require Import Lex.ProofsCursor Lex.ProofsArith Lex.ProofsProgress.
 Open Scope Z_scope.
 
@@ -36,6 +36,14 @@ Print Assumptions graphql_cursor_refuted.
 Theorem graphql_cursor_ascii : forall s, Forall (fun c => width (cp c) = 1) s -> exists ts, lex_graphql s = Done ts.
 Proof. exact (iter_lexer_ascii_safe graphql_next eq_refl). Qed.
 Print Assumptions graphql_cursor_ascii.
+
+(** the block-string values: [dedent_block_string] slices at a byte count (finding C12-K7) *)
+Theorem graphql_dedent_refuted : exists s, (exists ts, lex_graphql s = Done ts) /\ lex_graphql_full s = Crash.
+Proof.
+  exists [(34, 0); (34, 0); (34, 0); (10, 4); (160, 4); (120, 1); (10, 4); (32, 4); (121, 1); (34, 0); (34, 0); (34, 0)].
+  split; [eexists|]; vm_compute; reflexivity.
+Qed.
+Print Assumptions graphql_dedent_refuted.
 
 (** * 2. lexer termination: fuel = number of characters + 1 suffices for every lexer, every text *)
 Theorem lex_terminates : forall s,
